@@ -130,6 +130,14 @@ def oracle(ctx, spec, out, ops, raw):
                 f"could not build the operand of {spec}: {out['setup_failed']}")
     if "bad" in out:
         return ("malformed-result:" + k, f"{spec}: result {out['bad']}")
+    if k in ("bin", "un") and ("operand_changed" in out or "second_differs" in out):
+        cls = ops[0].get("cls", ops[0]["t"]) if ops else "?"
+        if "operand_changed" in out:
+            return (f"operation-changes-its-operand:{spec['op']}:{cls}",
+                    f"{spec['op']} on {ops} left an operand (or a copy of it made earlier by scaling with a number) different "
+                    f"from what it was: {out['operand_changed']}")
+        return (f"repeated-operation-differs:{spec['op']}:{cls}",
+                f"{spec['op']} on the same objects {ops} gave a different outcome the second time: {out['second_differs']}")
     if k == "mk":
         cls = getattr(U, spec["cls"])
         unit = spec["unit"]
@@ -527,6 +535,29 @@ def main(tier: str) -> int:
                       f"by the observed outcome ({len(unexplained)} cases)",
                       {"call": cs["spec"], "operands": cs["ops"], "observed": cs["out"], "relation": "Units.Dispatch.case_ok",
                        "other_cases": [cases[i]["spec"] for i in unexplained[1:6]]}, found_input=False)
+    # ---- the tie to the source text broke and the clause oracle saw nothing yet: search harder for a failing input
+    tie = tree.broken(PID)
+    searched = 0
+    if tie and not fails:
+        rng2 = random.Random(run.seed * 7919 + 1717)
+        found = None
+        for spec in gen_cases(ctx, rng2, tier):
+            out, ops, raw = UU.run_call(ctx, spec)
+            searched += 1
+            try:
+                bad = oracle(ctx, spec, out, ops, raw)
+            except Exception:  # noqa
+                bad = None
+            if bad:
+                found = ({"spec": spec, "out": out, "ops": ops}, bad)
+                break
+        if found:
+            cs, bad = found
+            run.violation(bad[0], bad[1], {"call": cs["spec"], "operands": cs["ops"], "observed": cs["out"],
+                                           "how": "build the operand(s) with pydsol.core.units cls(value, unit) and apply the call"})
+    run.cov["extra_cases_searched_with_oracle_only"] = searched
+    if tie and not run.violations:
+        UU.report_broken_tie(run, tree, {"model_impl_mismatching_cases": len(mism), "cases_searched": len(cases) + searched})
     if not proofs_ok and not run.violations:
         run.violation("proof-broken", "a C17 proof obligation no longer checks: " + getattr(run, "proof_log", "")[-800:],
                       {"theorems": run.cov.get("theorems")}, found_input=False)
